@@ -27,12 +27,67 @@ def shiftedOf (u : Uni) (k : Key) : Int :=
     | [c] => c
     | _ => if u.isLower k.keycode then u.toUpper k.keycode else 0
 
-/-- **XtermDomain**: the chords the xterm legacy encoding can express with a single unambiguous
-    report (see `Spec.KeyEnc.xtermLegacy`); explicit and decidable. -/
+/-- The character the chord denotes: the key itself, or what Shift produces on it. -/
+def producedChar (u : Uni) (k : Key) : Int :=
+  if xtermMods k &&& shiftBit ≠ 0 then shiftedOf u k else k.keycode
+
+/-- The event is a chord rather than a text production: without Alt/Ctrl, its text (if any) is the one
+    character the chord denotes.  A text that is anything else — a grapheme cluster of several code
+    points, the character caps lock / an AltGr level / a compose sequence turned the key into — is
+    what the user typed; the legacy protocol reports that text and nothing distinguishes it from
+    typing the text directly, so the key clause does not apply (`textDue` does). -/
+def textIsChord (u : Uni) (k : Key) : Bool :=
+  decide (xtermMods k &&& (altBit ||| ctrlBit) ≠ 0) || decide (k.text = []) || decide (k.text = [producedChar u k])
+
+/-- **XtermDomain**: the chords the xterm legacy encoding can express with a single report that
+    *Vaxis's own input pipeline reads back as one event* (see `Spec.KeyEnc.xtermLegacy`); explicit and
+    decidable.  Outside, with the reason:
+    * Ctrl+Alt (+Shift) + character: xterm expresses it as `ESC` + the C0 byte, but Vaxis's parser has
+      no single event for `ESC` + C0 (the C0 byte is dispatched on its own, the `ESC` is dropped or left
+      pending), so no encoding of the legacy protocol can round-trip; what *is* written is pinned to
+      xterm's form by `altCtrlXterm` / `C13Ext.alt_ctrl_letter_is_xterm`;
+    * Ctrl + a character without a control code (digits 0 1 9, space, most punctuation, non-ASCII) and
+      Ctrl+Shift: the legacy protocol has no encoding of the chord (xterm sends the plain character);
+    * Ctrl + h i m [ : the C0 byte is BackSpace / Tab / Enter / Escape;
+    * Shift on a non-letter, Alt + a byte that starts an escape sequence, F13+, keypad, media keys;
+    * events that are text productions (`textIsChord` false). -/
 def XtermDomain (u : Uni) (k : Key) : Bool :=
   (xtermLegacy k.keycode (xtermMods k) (shiftedOf u k) false).isSome &&
   -- an event carrying a longer text (composed input) is forwarded as that text, not as a chord
-  decide (k.text.length ≤ 1)
+  decide (k.text.length ≤ 1) && textIsChord u k
+
+/-- **Text clause** ("keys and pastes arrive intact"): an event of a character key (or Tab / Enter /
+    Escape / BackSpace — anything that is not one of the special keys above `MaxRune`) that carries text and neither Alt nor Ctrl is typed or pasted
+    text; the child must receive exactly that text.  (Shift+Tab is the back-tab key.) -/
+def textDue (k : Key) : Bool :=
+  decide (k.text ≠ []) && decide (k.keycode ≤ maxRune) &&
+  decide (xtermMods k &&& (altBit ||| ctrlBit) = 0) && !(decide (k.keycode = KeyTab) && decide (xtermMods k = shiftBit))
+
+/-- xterm's legacy report of Ctrl+Alt(+Shift) + a character that has a control code (`@ a–z [ \ ] ^ _`):
+    `ESC` followed by the C0 byte (metaSendsEscape). -/
+def altCtrlXterm (kc : Int) : Option Str := (ctrlByte kc).map fun b => [27, b]
+
+/-- Non-ASCII character keys (code points ≥ 128): the legacy protocol sends the character (UTF-8);
+    Shift is expressible exactly when the character Shift produces is an upper-case letter whose lower
+    case is the key (so that Vaxis reads it back as Shift + key).  There is no Ctrl encoding.  Alt
+    (xterm: `ESC` + the UTF-8 character) is *not* in the domain: Vaxis's parser has no transition for a
+    rune ≥ 0x80 in its escape state and drops both the `ESC` and the character, so no event at all comes
+    back (a host-parser limitation, like `ESC` + C0 for Ctrl+Alt); that the widget writes xterm's form
+    is `C13.alt_char_roundtrip` / `C13Ext.alt_shift_letter_roundtrip` (byte half). `none` = not in the
+    domain. -/
+def xtermLegacyU (u : Uni) (key : Int) (mods : Nat) (shifted : Int) : Option Seq :=
+  if ¬(128 ≤ key ∧ key < maxRune ∧ validRune key = true) then none
+  else if mods = 0 then
+    (if u.isUpper key = true ∧ u.toLower key = 127 then none else some (.print [key]))
+  else if mods = shiftBit then
+    if u.isUpper shifted = true ∧ u.toLower shifted = key ∧ validRune shifted = true then some (.print [shifted])
+    else none
+  else none
+
+/-- `XtermDomain` extended to non-ASCII character keys. -/
+def XtermDomainU (u : Uni) (k : Key) : Bool :=
+  XtermDomain u k ||
+  ((xtermLegacyU u k.keycode (xtermMods k) (shiftedOf u k)).isSome && decide (k.text.length ≤ 1) && textIsChord u k)
 
 /-- The forwarded key arrives intact: the bytes, parsed by Vaxis's own pipeline, are exactly one
     sequence whose decoded key `k'` matches the original key code and xterm modifiers. -/
@@ -153,5 +208,67 @@ def modeNumbers : List Int := [1, 1000, 1002, 1003, 1006, 1007, 1049, 2004, 2, 7
 /-! ## Paste -/
 def pasteStartSeq : Seq := .csi [[200]] 126
 def pasteEndSeq : Seq := .csi [[201]] 126
+
+/-- What the host pipeline makes of a bracketed paste: the two boundaries and, for the payload, one
+    item per parsed sequence — a grapheme cluster (`ansi.Print`) or a C0 byte. -/
+inductive PasteItem where
+  | start
+  | stop
+  | grapheme (g : Str)
+  | c0 (b : Int)
+deriving DecidableEq, Repr
+
+/-- The bytes (code points) of an item in the source text of the paste. -/
+def PasteItem.source : PasteItem → Str
+  | .start => renderSeq pasteStartSeq
+  | .stop => renderSeq pasteEndSeq
+  | .grapheme g => g
+  | .c0 b => [b]
+
+/-- What the child must receive for an item: payload items byte-identical, a boundary as its marker
+    iff the child enabled bracketed paste (mode 2004), else nothing. -/
+def PasteItem.due (md : Modes) : PasteItem → Str
+  | .start => if md.paste then renderSeq pasteStartSeq else []
+  | .stop => if md.paste then renderSeq pasteEndSeq else []
+  | .grapheme g => g
+  | .c0 b => [b]
+
+/-- The event `handleSequence` posts for an item (`pending` = `vx.pastePending` when it is decoded). -/
+def PasteItem.event (u : Uni) (pending : Bool) : PasteItem → VaxisModel.Model.TermMouse.Event
+  | .start => .pasteStart
+  | .stop => .pasteEnd
+  | .grapheme g => .key { decodeKey u (.print g) with event := if pending then EventPaste else EventPress }
+  | .c0 b => .key { decodeKey u (.c0 b) with event := if pending then EventPaste else EventPress }
+
+/-- `vx.pastePending` after `handleSequence` has seen the item. -/
+def PasteItem.pendingAfter (pending : Bool) : PasteItem → Bool
+  | .start => true
+  | .stop => false
+  | _ => pending
+
+/-- `handleSequence` over a list of items, threading `pastePending`. -/
+def pasteEvents (u : Uni) : Bool → List PasteItem → List VaxisModel.Model.TermMouse.Event
+  | _, [] => []
+  | pending, it :: rest => it.event u pending :: pasteEvents u (it.pendingAfter pending) rest
+
+def PasteItem.isPayload : PasteItem → Bool
+  | .grapheme _ => true
+  | .c0 _ => true
+  | _ => false
+
+/-- Payload items the theorem covers: a non-empty grapheme cluster of code points whose first code
+    point `c` is a rune (DEL only alone — uniseg never joins a control character to anything — and an
+    upper-case `c` whose lower case is an ordinary key code), or a C0 byte other than BS (0x08: the
+    host's `decodeKey` reports BS and DEL as the same key, BackSpace, so BS arrives as DEL). -/
+def PasteItem.ok (u : Uni) : PasteItem → Prop
+  | .start => True
+  | .stop => True
+  | .grapheme g => g ≠ [] ∧ 0 ≤ g.headD 0 ∧ g.headD 0 ≤ maxRune ∧ (g.headD 0 = 127 → g = [127]) ∧
+      (u.isUpper (g.headD 0) = true → u.toLower (g.headD 0) ≤ maxRune ∧ u.toLower (g.headD 0) ≠ 9 ∧ u.toLower (g.headD 0) ≠ 127)
+  | .c0 b => 0 ≤ b ∧ b < 32 ∧ b ≠ 8
+
+/-- Everything written to the child for a list of events handed to `Model.Update` one after the other. -/
+def forward (u : Uni) (md : Modes) (evs : List VaxisModel.Model.TermMouse.Event) : Str :=
+  (evs.map (VaxisModel.Model.TermMouse.update u md)).flatten
 
 end VaxisModel.Spec.TermInput
